@@ -15,7 +15,9 @@ EXPLANATION = (
     'orphan adoption marks the new owner before privatising; D2 calloc/realloc obligations: scalable_calloc zero-fills the same '
     'number of bytes it allocated, only for a non-null result; reallocAligned copies min(old,new) bytes, frees the old block only '
     'when the new allocation succeeded and returns the old pointer unchanged on the in-place paths; D3 backend: free-bin lists '
-    'are changed only under their MallocMutex.  Disjointness, alignment, msize >= request, size-class / bin arithmetic, boundary-tag coalescing and "never writes '
+    'are changed only under their MallocMutex; D4 a pointer that is moved inside its object (alignUp on a fresh allocation) comes '
+    'from a request that the allocator serves from a slab: the request expression is bounded, on every path, strictly below the '
+    'threshold at which internalPoolMalloc itself switches to large objects (caller/callee guard agreement).  Disjointness, alignment, msize >= request, size-class / bin arithmetic, boundary-tag coalescing and "never writes '
     'into a live block" are NOT decided.')
 ASSUMPTIONS = ['FREELIST_NONBLOCKING configuration (the shipped one)', 'Linux configuration']
 ND = ['disjointness of live blocks', 'alignment of results', 'scalable_msize >= request', 'size-class and bin arithmetic',
@@ -27,6 +29,7 @@ def run(facts, rep):
     d1_free(facts, rep)
     d2_contents(facts, rep)
     d3_backend(facts, rep)
+    d4_slab_shift(facts, rep)
 
 
 def ops_on(fn, member, kinds=None):
@@ -164,3 +167,113 @@ def d3_backend(facts, rep):
     if n < 2:
         raise AnalysisBroken('backend bin functions not found (%d)' % n)
     rep.floor('D3', 2, 'backend bins')
+
+
+
+# ---------------------------------------------------------------------------------------------------------------
+def expr_key(fn, s):
+    """structural key of an expression, looking through reads and integral casts"""
+    s = fn.strip(s)
+    n = fn.n(s)
+    k = n.get('k')
+    if k == 'var':
+        return ('g', n['glob']) if 'glob' in n else ('v', n['v'])
+    if k == 'enum':
+        return ('g', n.get('q'))
+    if k == 'lit' and n.get('cv') is not None:
+        return ('c', int(n['cv']))
+    if k == 'binop':
+        return ('b', n['op'], expr_key(fn, n['l']), expr_key(fn, n['r']))
+    if k == 'member':
+        return ('m', n['n'], expr_key(fn, n['base']) if n.get('base', -1) >= 0 else None)
+    return ('?', s)
+
+
+def sym_bound(fn, s):
+    """(symbol key or None, integer offset) for `SYM`, `SYM - c`, `SYM + c` or a constant"""
+    c = fn.cv(s)
+    if c is not None:          # compile-time constant: compare numerically
+        return None, int(c)
+    s = fn.strip(s)
+    n = fn.n(s)
+    if n.get('k') == 'binop' and n['op'] in ('+', '-'):
+        c = fn.cv(n['r'])
+        if c is not None and fn.cv(n['l']) is None:
+            sym, off = sym_bound(fn, n['l'])
+            return sym, off + (int(c) if n['op'] == '+' else -int(c))
+    if n.get('k') in ('var', 'enum'):
+        return expr_key(fn, s), 0
+    c = fn.cv(s)
+    if c is not None:
+        return None, int(c)
+    return expr_key(fn, s), 0
+
+
+def upper_bound_edges(fn, ekey, sym, limit):
+    """edges on which  E <= sym + limit  is known (E identified by its structural key)"""
+    def pred(a, truth):
+        n = fn.n(fn.strip(a))
+        if n.get('k') != 'binop' or n['op'] not in ('<', '<=', '>', '>='):
+            return False
+        op, l, r = n['op'], n['l'], n['r']
+        if expr_key(fn, r) == ekey:          # B op' E  ->  E op B
+            op = {'<': '>', '<=': '>=', '>': '<', '>=': '<='}[op]
+            l, r = r, l
+        if expr_key(fn, l) != ekey:
+            return False
+        if not truth:
+            op = {'<': '>=', '<=': '>', '>': '<=', '>=': '<'}[op]
+        if op not in ('<', '<='):
+            return False
+        bsym, boff = sym_bound(fn, r)
+        if bsym != sym:
+            return False
+        ub = boff - 1 if op == '<' else boff      # E <= ub
+        return ub <= limit
+    return edges_where(fn, pred)
+
+
+def d4_slab_shift(facts, rep):
+    """K7 guard agreement: scalable_free/msize find the header of a small object from any address inside it, but they
+    find the header of a large object only from its start.  So a result of internalPoolMalloc may be moved (alignUp)
+    only if the request is served from a slab, i.e. is below the size at which internalPoolMalloc switches to
+    getFromLLOCache.  The threshold is read from the callee, the bound from the caller's dominating branch edges."""
+    from engine.rules import vars_initialised_from, is_var
+    thr = None
+    for fn in facts.get(RI + 'internalPoolMalloc'):
+        size_params = [p['v'] for p in fn.d.get('params', []) if 'size_t' in p['ty'] or 'unsigned long' in p['ty']]
+        for pos, s, node, d in calls_named(fn, ('getFromLLOCache',)):
+            for b, blk in fn.blocks.items():
+                for si in (0, 1):
+                    for a, truth in fn.edge_conds(b, si):
+                        n = fn.n(fn.strip(a))
+                        if n.get('k') == 'binop' and n['op'] in ('>=', '>') and truth and is_var(fn, n['l'], size_params):
+                            if dominated_by_edges(fn, pos, {(b, si)})[0]:
+                                sym, off = sym_bound(fn, n['r'])
+                                thr = (sym, off if n['op'] == '>=' else off + 1)     # size >= sym+off  -> large object
+    if thr is None:
+        raise AnalysisBroken('internalPoolMalloc: the large-object dispatch (size >= threshold -> getFromLLOCache) was not found')
+    n_sites = 0
+    for fn in facts.fns.values():
+        if not fn.q.startswith(RI) and not fn.q.startswith('rml::'):
+            continue
+        allocs = calls_named(fn, ('internalPoolMalloc',))
+        if not allocs:
+            continue
+        for pos, s, node, d in allocs:
+            vs = vars_initialised_from(fn, [s])
+            shifted = [c for c in calls_named(fn, ('alignUp',)) if c[2].get('a') and
+                       (is_var(fn, c[2]['a'][0], vs) or s in fn.subtree(c[2]['a'][0]))]
+            if not shifted or len(node.get('a', [])) < 2:
+                continue
+            n_sites += 1
+            ekey = expr_key(fn, node['a'][1])
+            edges = upper_bound_edges(fn, ekey, thr[0], thr[1] - 1)
+            ok, wit = dominated_by_edges(fn, pos, edges)
+            rep.ob('D4', 'K7', fn, 'the allocation at line %s whose address is then moved inside the object is always served from a slab' % node['ln'],
+                   ok, 'the request is not bounded strictly below the large-object threshold of internalPoolMalloc on every path: at the '
+                   'boundary a large object is returned and shifted, and free/msize/realloc no longer find its header (' + wit + ')',
+                   ln=node['ln'], key_extra=str(node['ln']))
+    if n_sites == 0:
+        raise AnalysisBroken('no internalPoolMalloc result is shifted by alignUp any more: the D4 rule has lost its site')
+    rep.floor('D4', 1, 'shifted slab allocations')
